@@ -16,6 +16,28 @@ except OSError:
     pass
 
 SIGNED = set(open(os.path.join(VERIF, 'claimed.txt')).read().split())
+TECH = {
+    'C01': 'property-based testing: rapidcheck cases on all four tasking backends, per-index counting oracle, ASan/UBSan',
+    'C02': 'property-based testing: rapidcheck cases and forked configuration histories on all four backends, exactly-once / value / lifetime oracles, ASan/UBSan/LSan; wake-up stress rounds',
+    'C03': 'property-based testing over schedules: rapidcheck-generated pause rules on guarded scheduling points, enumeration of pin pairs and single rules, hook-free stress',
+    'C04': 'property-based testing: rapidcheck operands with pairwise distinct components vs scalar definition on plain arrays, all 4370 overload instances',
+    'C05': 'property-based testing: rapidcheck boundary-heavy boxes/points/rays vs independent membership oracle',
+    'C06': 'property-based testing: rapidcheck condition-bounded matrices/quaternions vs long double reference and cross-construction relations',
+    'C07': 'exhaustive enumeration of all 2^32 float bit patterns (SIMD and NO_SIMD builds) + rapidcheck for binary/ternary kernels and distributions',
+    'C08': 'property-based testing: rapidcheck handle histories vs counting model (ASan) and generated thread programs (TSan)',
+    'C09': 'property-based testing: rapidcheck operation histories vs std::optional-like model with lifetime-instrumented payloads, ASan/UBSan',
+    'C10': 'model-based property testing: rapidcheck histories vs insertion-ordered reference map',
+    'C11': 'model-based property testing: rapidcheck construction/copy/resize/destroy histories with full reads under ASan',
+    'C12': 'property-based testing: rapidcheck-generated thread programs on real threads under TSan and ASan, permutation / order oracles',
+    'C13': 'property-based testing: rapidcheck initialisation histories, one forked process per case, concurrency gauge',
+    'C14': 'property-based testing: rapidcheck alloc/free histories with pattern oracle on two allocation back ends, AlignedVector vs std::vector model',
+    'C15': 'property-based testing (rapidcheck) + coverage-guided fuzzing (libFuzzer decoding bytes into typed cases): round trip, all truncations, writer model',
+    'C16': 'coverage-guided fuzzing (libFuzzer, totality + print/parse round trip inside the target) + rapidcheck tree round trip, prefixes and mutations',
+    'C17': 'exhaustive enumeration of small extents + rapidcheck for extents beyond 2^32 (u128 oracle, sparse mmap array)',
+    'C18': 'property-based testing: rapidcheck strings/URLs/paths/argument vectors/magnitudes vs independent decomposition oracles',
+    'C19': 'model-based property testing: rapidcheck observer histories (ASan) and generated time-stamp thread programs (TSan)',
+    'C20': 'property-based testing: Hypothesis cases executed by an ASan-built shim (one process per case), independent Python decoders as oracle',
+}
 checks = []
 for pid in ALL:
     if pid not in P.PROPS or P.PROPS[pid].get('unclaimed') or pid not in SIGNED:
@@ -28,7 +50,7 @@ for pid in ALL:
         evidence_file='evidence/%s.json' % pid,
         replay_cmd_template='./check %s --replay {path}' % pid,
         engine=p.get('engine', 'rapidcheck-harness'),
-        technique=p.get('technique', 'property-based testing (rapidcheck generated cases vs reference-model oracle, sanitizers on)'),
+        technique=p.get('technique', TECH.get(pid, 'property-based testing (rapidcheck generated cases vs reference-model oracle, sanitizers on)')),
         level_claimed=dict(category='exploration', text=p.get('level_text', 'generated-input search against an explicit oracle; a pass means no violating case was found in the explored domain, not absence'),
                            design_ref='DESIGN.md section 5 ' + pid),
         level_note=p.get('level_note', 'trusted: ' + '; '.join(p.get('assumptions', []))),
@@ -57,7 +79,7 @@ m = dict(
     ],
     checks=checks,
     not_applicable=na,
-    notes='Generated by tools/gen_manifest.py from engine/props.py. Known findings: known_findings.json.',
+    notes='Generated by tools/gen_manifest.py from engine/props_d/*.py and claimed.txt. Known findings: known_findings.json (all entries fixed, none open). Seeded changes: seeded/. Design and results: DESIGN.md.',
 )
 json.dump(m, open(os.path.join(VERIF, 'MANIFEST.json'), 'w'), indent=1)
 print('claimed', [c['property_id'] for c in checks])
